@@ -1,12 +1,146 @@
 /-
-  UnytModel.Ops.C15 — opcodes of the C15 model (prefix `c15.`).
+  UnytModel.Ops.C15 — opcodes of the C15 model (prefix `c15.`): dumps of the regenerated
+  constants tables (translator self-check), Float evaluation of the symbolic definitions
+  (module execution and closed forms), the naming model of `add_constants`, the reference
+  rows and the Boolean checks the theorems of `UnytProofs/C15*.lean` are about.
 -/
 import UnytModel.DriverBase
+import UnytModel.PhysicalConstantsCheck
 
 namespace Unyt
+open Generated PCheck
 
-def opsC15 : Handler := fun _st fields =>
+namespace C15Ops
+
+/-- what importing `_physical_ratios.py` binds, at Float -/
+def moduleEnv : List (String × Float) := execModule 0.0 ratioDefs
+
+def envF : String → Float := envOf 0.0 moduleEnv
+def baseF : String → Float := baseEnv ratioDefs 0.0
+
+def atomStr : Atom → String
+  | .pi => "pi"
+  | .num n => s!"#{n}"
+  | .name s => s
+
+def monoStr (m : Mono) : String :=
+  ratStr m.coef ++ " " ++ " ".intercalate (m.atoms.filter (fun p => p.2 != 0) |>.map fun p => s!"{atomStr p.1}^{ratStr p.2}")
+
+def boolStr (b : Bool) : String := if b then "1" else "0"
+
+def spaceCheck (which : String) (rows : List MatRow) : Option Bool :=
+  match which with
+  | "names" => some (namesOk rows)
+  | "table" => some (matchesTable rows)
+  | "mks" => some (mksIsTable rows)
+  | "aliases" => some (aliasesEqual rows)
+  | "suffixes" => some (suffixesEqual rows)
+  | "registry" => some (registryEqual pcRows rows)
+  | _ => none
+
+end C15Ops
+open C15Ops
+
+def opsC15 : Handler := fun st fields =>
   match fields with
+  -- symbolic definitions, evaluated at Float
+  | ["c15.ratio", n] =>
+    match ratioDefs.lookup n with
+    | none => some (st, "none")
+    | some e =>
+      let viaExec := envF n
+      let viaClosed := (e.subst closedRatios).eval baseF
+      some (st, s!"ok\t{bitsStr viaExec}\t{bitsStr viaClosed}\t{boolStr e.isLit}")
+  | ["c15.constcell", n] =>
+    match constCells.lookup n with
+    | none => some (st, "none")
+    | some e => some (st, s!"ok\t{bitsStr (e.eval envF)}\t{bitsStr ((e.subst closedRatios).eval baseF)}")
+  | ["c15.unitcell", n] =>
+    match unitCells.lookup n with
+    | none => some (st, "none")
+    | some e => some (st, s!"ok\t{bitsStr (e.eval envF)}\t{bitsStr ((e.subst closedRatios).eval baseF)}")
+  | ["c15.normal", n] =>
+    match cellDefs.lookup n with
+    | none => some (st, "none")
+    | some e =>
+      match norm (e.subst closedRatios) with
+      | some m => some (st, s!"ok\t{monoStr m}")
+      | none => some (st, "ok\t(outside the multiplicative fragment)")
+  -- dumps of the regenerated tables
+  | ["c15.dump.const", n] =>
+    match constTable.find? (fun c => c.spec.name == n) with
+    | none => some (st, "none")
+    | some c =>
+      some (st, s!"ok\t{c.value}\t{c.unitScale}\t{c.spec.dim.str}\t{c.spec.unit}\t{",".intercalate c.spec.aliases}\t{";".intercalate (c.unitFactors.map fun p => s!"{p.1}:{ratStr p.2}")}")
+  | ["c15.dump.consts"] => some (st, "ok\t" ++ ",".intercalate (constTable.map (·.spec.name)))
+  | ["c15.dump.spaces"] => some (st, "ok\t" ++ ",".intercalate (spaces.map (·.1)))
+  | ["c15.dump.space", s] =>
+    match spaces.lookup s with
+    | none => some (st, "none")
+    | some rows => some (st, s!"ok\t{rows.length}\t{",".intercalate (rows.map (·.name))}")
+  | ["c15.dump.mat", s, k] =>
+    match spaces.lookup s with
+    | none => some (st, "none")
+    | some rows =>
+      match rows.find? (fun r => r.name == k) with
+      | none => some (st, "none")
+      | some r => some (st, s!"ok\t{r.value}\t{r.scale}\t{r.dim.str}")
+  | ["c15.dump.em"] =>
+    some (st, "ok\t" ++ ";".intercalate (emUnits.map fun p => s!"{p.1}|{p.2.str}"))
+  -- the naming model of add_constants / __init__
+  | ["c15.expected"] => some (st, "ok\t" ++ ",".intercalate expectedKeys)
+  | ["c15.guise", k] =>
+    match lastWrite (addConstantsNames emUnits (constTable.map (·.spec))) k with
+    | some (c, g) => some (st, s!"ok\t{c}\t{g.str}")
+    | none => some (st, "none")
+  | ["c15.top", k, isUnit] =>
+    match topLevel expectedKeys (if isUnit == "1" then [k] else []) k with
+    | some true => some (st, "ok\tconstant")
+    | some false => some (st, "ok\tunit")
+    | none => some (st, "none")
+  -- reference
+  | ["c15.ref", n] =>
+    match Ref.C15.find? n with
+    | none => some (st, "none")
+    | some r => some (st, s!"ok\t{ratStr r.v}\t{ratStr r.cls.tol}\t{r.dim.str}")
+  | ["c15.ref.lists"] =>
+    some (st, s!"ok\t{",".intercalate Ref.C15.exclUnitVsConstant}\t{",".intercalate Ref.C15.exclValue}\t{",".intercalate Ref.C15.homonyms}")
+  | ["c15.relations"] =>
+    some (st, s!"ok\t{",".intercalate (Ref.C15.relations.map (·.name))}\t{",".intercalate (Ref.C15.numRelations.map (·.name))}")
+  | ["c15.relation", n] =>
+    match Ref.C15.relations.find? (fun r => r.name == n) with
+    | some r =>
+      some (st, s!"ok\t{bitsStr ((closeRel r.lhs).eval baseF)}\t{bitsStr ((closeRel r.rhs).eval baseF)}\t{boolStr (relationOk r)}")
+    | none =>
+      match Ref.C15.numRelations.find? (fun r => r.name == n) with
+      | some r =>
+        some (st, s!"ok\t{bitsStr ((closeRel r.lhs).eval baseF)}\t{bitsStr ((closeRel r.rhs).eval baseF)}\t{boolStr (numRelationOk r)}\t{ratStr r.cls.tol}")
+      | none => some (st, "none")
+  -- the Boolean checks the theorems are about
+  | ["c15.check", "relations"] => some (st, s!"ok\t{boolStr relationsOk}")
+  | ["c15.check", "numrelations"] => some (st, s!"ok\t{boolStr numRelationsOk}")
+  | ["c15.check", "constdoubles"] => some (st, s!"ok\t{boolStr constCellsMatchDoubles}")
+  | ["c15.check", "unitdoubles"] => some (st, s!"ok\t{boolStr unitCellsMatchDoubles}")
+  | ["c15.check", "unsuffixed"] => some (st, s!"ok\t{boolStr unitSymbolsUnsuffixed}")
+  | ["c15.check", "constunits"] => some (st, s!"ok\t{boolStr constUnitsOk}")
+  | ["c15.check", "top"] => some (st, s!"ok\t{boolStr (bitwiseEqual pcRows topRows)}")
+  | ["c15.check", "unitconst", excl] =>
+    some (st, s!"ok\t{boolStr (unitAndConstantAgree (if excl == "1" then Ref.C15.exclUnitVsConstant else []))}")
+  | ["c15.check", "unitconstsym", excl] =>
+    some (st, s!"ok\t{boolStr (unitAndConstantAgreeSymbolic (if excl == "1" then Ref.C15.exclUnitVsConstant else []))}")
+  | ["c15.check", "values", excl] =>
+    some (st, s!"ok\t{boolStr (valuesInClass (if excl == "1" then Ref.C15.exclValue else []))}")
+  | ["c15.check", "space", which, s] =>
+    match spaces.lookup s with
+    | none => some (st, "none")
+    | some rows =>
+      match spaceCheck which rows with
+      | some b => some (st, s!"ok\t{boolStr b}")
+      | none => some (st, "bad-op")
+  | ["c15.unitvsconst", k] =>
+    match (defaultLut Rat).find? k with
+    | none => some (st, "none")
+    | some e => some (st, s!"ok\t{boolStr (constOfKey k).isSome}\t{boolStr (unitVsConstOk k e)}\t{boolStr (unitVsConstSymbolicOk k)}")
   | _ => none
 
 end Unyt
